@@ -274,12 +274,34 @@ fn gen_text_corpus(rng: &mut Rng, ext: &str) -> Vec<u8> {
             _ => format!("{}", rng.below(100)),
         }
     };
+    // timestamps of the shape the line grammars accept (int.frac), magnitudes around every width limit
+    let ts = |rng: &mut Rng, frac6: bool| -> String {
+        let int = match rng.below(10) {
+            0 => "0".to_string(),
+            1 => format!("{}", rng.below(100)),
+            2 => format!("{}", rng.u32() % 1_000_000),
+            3 => "429496".into(),
+            4 => "4294967".into(),
+            5 => format!("{}", 4_294_967_295u64 + rng.below(3)),
+            6 => "18446744073709".into(),
+            7 => "18446744073710".into(),
+            8 => format!("{}", u64::MAX),
+            _ => "99999999999999999999".into(),
+        };
+        let frac = if frac6 { format!("{:06}", rng.u32() % 1_000_000) } else {
+            match rng.below(5) { 0 => format!("{:03}", rng.u32() % 1000), 1 => format!("{:06}", rng.u32() % 1_000_000), 2 => "9".into(), 3 => "99999999999999999999".into(), _ => format!("{}", rng.u32()) }
+        };
+        format!("{}{}.{}", if rng.chance(1, 8) { "-" } else { "" }, int, frac)
+    };
     match ext {
         "asc" => {
             out.push_str(match rng.below(4) { 0 => "date Wed Oct 19 10:15:25.000 am 2022\n", 1 => "date Mit Okt 19 25:61:61.999 2022\n", 2 => "date\n", _ => "" });
             out.push_str(match rng.below(3) { 0 => "base hex  timestamps absolute\n", 1 => "base dec timestamps relative\n", _ => "" });
             for _ in 0..n {
-                let l = match rng.below(8) {
+                let l = match rng.below(11) {
+                    8 => format!("   {} {}  {:x}             Rx   d {} {}\n", ts(rng, true), rng.below(40), rng.u32() % 0x800, rng.below(9), (0..rng.below(9)).map(|_| format!("{:02X}", rng.u8())).collect::<Vec<_>>().join(" ")),
+                    9 => format!("{} CANFD {} Rx {:x} name 1 0 {:x} {} {}\n", ts(rng, true), rng.below(300), rng.u32(), rng.below(16), rng.below(70), (0..rng.below(70)).map(|_| format!("{:02x}", rng.u8())).collect::<Vec<_>>().join(" ")),
+                    10 => format!("{} CANFD {} Rx ErrorFrame Not Acknowledge error, dominant error flag fffe c7 31ca Rx 0 0 f 0 0 0 0 0 0 0 0 0 0 0 0 0 0\n", ts(rng, true), rng.below(300)),
                     0 => format!("   {} {}  {:x}             Rx   d {} {}\n", num(rng), rng.below(40), rng.u32() % 0x800, rng.below(9), (0..rng.below(9)).map(|_| format!("{:02X}", rng.u8())).collect::<Vec<_>>().join(" ")),
                     1 => format!("{} CANFD {} Rx {:x} name 1 0 {} {} {}\n", num(rng), num(rng), rng.u32(), rng.below(70), rng.below(70), (0..rng.below(70)).map(|_| format!("{:02x}", rng.u8())).collect::<Vec<_>>().join(" ")),
                     2 => format!("{} {} ErrorFrame\n", num(rng), num(rng)),
@@ -294,7 +316,9 @@ fn gen_text_corpus(rng: &mut Rng, ext: &str) -> Vec<u8> {
         }
         "txt" => {
             for _ in 0..n {
-                let l = match rng.below(7) {
+                let l = match rng.below(9) {
+                    7 => format!("  {} {} {} {} {}: monotonic line\n", ts(rng, false).trim_start_matches('-'), rng.below(100000), rng.below(100000), rng.pick(&["I", "D", "E", "W", "V", "F", "X"]), rng.pick(&["Tag", "a b", "ActivityManager"])),
+                    8 => format!("{:02}-{:02} {:02}:{:02}:{:02}.{} {} {} I Tag: threadtime line\n", rng.below(14), rng.below(33), rng.below(25), rng.below(61), rng.below(61), match rng.below(3) { 0 => "999".to_string(), 1 => "99999999999999999999".to_string(), _ => format!("{}", rng.u32()) }, rng.below(100000), rng.below(100000)),
                     0 => format!("{}-{} {}:{}:{}.{} {} {} {} {}: {}\n", num(rng), num(rng), num(rng), num(rng), num(rng), num(rng), num(rng), num(rng), rng.pick(&["I", "D", "E", "W", "V", "F", "X", ""]), rng.pick(&["Tag", "", "a b", "ActivityManager"]), "text with : colons"),
                     1 => "01-01 00:00:00.000  1234  5678 I Tag: text\n".into(),
                     2 => "--------- beginning of main\n".into(),
